@@ -18,9 +18,11 @@ comparison patterns, under the extra assumption that no parameter is bound to an
 `unevaluated_failure_invisible`, `match_first_case_only`, `match_none_is_null`, …) are stated about
 executions of compiled programs.
 
-NOT covered (`…_partial`): type patterns of `match`, map literals, f-strings, postfix chains (member
-access, index, calls, macros), stored programs reached through identifiers, call logs.  For those
-constructors the property is carried by the correspondence run of the check (facet C05), as before.
+NOT covered in this file (`…_partial`): type patterns of `match`, map literals, f-strings, postfix chains
+(member access, index, calls, macros), stored programs reached through identifiers, call logs.
+`Theorems/C05Compile2.lean` extends the theorem to map literals, index, field access, calls of built-in
+functions and constructors, f-strings, the eight macros and type patterns (fragment `Frag2`, by level of the
+depth budget); what remains outside is listed there and carried by the correspondence run (facet C05).
 -/
 set_option autoImplicit false
 namespace Rscel
